@@ -13,6 +13,7 @@ use std::collections::HashMap;
 use std::cmp::Ordering;
 use std::iter::zip;
 verus! {
+global size_of usize == 8;   // the verified configuration is a 64-bit target
 '''
 
 FOOTER = r'''
@@ -205,9 +206,15 @@ pub uninterp spec fn into_iter_seq<T>(t: T) -> Seq<u8>;
 pub broadcast axiom fn axiom_vec_into_iter_seq(v: Vec<u8>) ensures #[trigger] into_iter_seq::<Vec<u8>>(v) == v@;
 // String keys hash and compare consistently (vstd only knows this for primitive keys): HashMap<String, _> then views as Map<String, _>
 pub broadcast axiom fn axiom_string_key_model() ensures #[trigger] vstd::std_specs::hash::obeys_key_model::<String>();
+// looking a String-keyed map up by the characters of the key (a String is determined by its character sequence)
+pub uninterp spec fn map_lookup(m: Map<String, CelValue>, k: Seq<char>) -> Option<CelValue>;
+pub broadcast axiom fn axiom_map_lookup(m: Map<String, CelValue>, ks: String)
+    ensures #[trigger] map_lookup(m, ks@) == (if m.contains_key(ks) { Some(m[ks]) } else { None::<CelValue> });
+// a Vec of a non-zero-sized element type never holds more than isize::MAX elements (Rust's allocation limit)
+pub broadcast axiom fn axiom_vec_celvalue_len(v: Vec<CelValue>) ensures #[trigger] v@.len() <= isize::MAX;
 }
-pub use ax::into_iter_seq;
-broadcast use {vstd::std_specs::hash::group_hash_axioms, ax::axiom_string_key_model, ax::axiom_vec_into_iter_seq};
+pub use ax::{into_iter_seq, map_lookup};
+broadcast use {vstd::std_specs::hash::group_hash_axioms, ax::axiom_string_key_model, ax::axiom_vec_into_iter_seq, ax::axiom_map_lookup, ax::axiom_vec_celvalue_len};
 '''
 
 
